@@ -148,6 +148,23 @@ Definition with_select (st : pstate) (s : list uid) : pstate :=
 Definition with_part (st : pstate) (p : list uid) : pstate :=
   {| p_rows := p_rows st; p_ns := p_ns st; p_select := p_select st; p_part := p; p_ctr := p_ctr st; p_keys := p_keys st |}.
 
+(* union: both frames are projected onto the LEFT operand's visible column names (df.select of the names picks
+   the right frame's columns by name), stacked, and deduplicated for distinct=True; the hidden columns are
+   dropped from the frame and from name_in_df *)
+Fixpoint pl_dedup (seen : list (list value)) (rs : list nrow) : list nrow :=
+  match rs with
+  | [] => []
+  | f :: rs' => if existsb (values_eqb (map snd f)) seen then pl_dedup seen rs'
+                else f :: pl_dedup (map snd f :: seen) rs'
+  end.
+Definition pl_union (sl sr : pstate) (distinct : bool) : pstate :=
+  let lnames := map (pname (p_ns sl)) (p_select sl) in
+  let proj := fun f : nrow => map (fun n => (n, nget f n)) lnames in
+  let all := map proj (p_rows sl) ++ map proj (p_rows sr) in
+  {| p_rows := if distinct then pl_dedup [] all else all;
+     p_ns := map (fun u => (u, pname (p_ns sl) u)) (p_select sl);
+     p_select := p_select sl; p_part := []; p_ctr := p_ctr sl; p_keys := lnames |}.
+
 Fixpoint pl_compile (d : db) (a : ast) : option pstate :=
   match a with
   | Source t cols =>
@@ -166,6 +183,11 @@ Fixpoint pl_compile (d : db) (a : ast) : option pstate :=
   | Ungroup c => match pl_compile d c with Some st => Some (with_part st []) | None => None end
   | Summarize c defs => match pl_compile d c with Some st => Some (pl_summarize st defs) | None => None end
   | Alias c None => pl_compile d c
+  | Union l r distinct =>
+      match pl_compile d l, pl_compile d r with
+      | Some sl, Some sr => Some (pl_union sl sr distinct)
+      | _, _ => None
+      end
   | _ => None
   end.
 
@@ -226,6 +248,17 @@ Fixpoint pflat_ok (d : db) (a : ast) : bool :=
              && forallb (fun u => mem_u u (p_select st)) (p_part st)
              && forallb (fun u => negb (user_in (pname (p_ns st) u) (map (fun dd => fst (fst dd)) defs))) (p_part st)
          | None => false
+         end
+  | Union l r _ =>
+      (* every visible column name of the left operand is a visible column name of the right one (the
+         union verb checks it), visible uids are not repeated *)
+      pflat_ok d l && pflat_ok d r
+      && match pl_compile d l, pl_compile d r with
+         | Some sl, Some sr =>
+             nodup_u (p_select sl)
+             && forallb (fun u => mem_s (uname (pname (p_ns sl) u))
+                                        (map (fun x => uname (pname (p_ns sr) x)) (p_select sr))) (p_select sl)
+         | _, _ => false
          end
   | _ => false
   end.
